@@ -160,6 +160,9 @@ def it_next(eng, st, it, stash, k, back=False):
             fn = sh["it"].fields[1]
             ctor = _ctor_of(fn)
             if ctor is not None:
+                # function items that only re-type a string reference: same contents, same identity
+                if re.search(r"(?:String::as_str|<String as Deref>::deref|<String as AsRef<str>>::as_ref|<str as AsRef<str>>::as_ref)$", str(ctor)):
+                    return k(eng_, st2, sh["stash"], item)
                 raise Unsupported("map over fn item %s" % ctor)
             clos = closure_of(eng_, fn)
             if clos is None:
